@@ -129,6 +129,16 @@ def enumerate_cases(tier):
                            scalar=False)
 
 
+    # many parties with PRSS: the conversion mask is a sum of comb(m, t) pseudorandom values (35 at m=7, t=3;
+    # 21 at m=7, t=2), so its bound must be divided accordingly -- a few widening pairs in every tier
+    for (m, t), S, T in (((7, 3), ['int', 8], ['int', 32]), ((7, 2), ['int', 8], ['int', 32]),
+                         ((7, 3), ['int', 16], ['fxp', 32, 16]), ((7, 2), ['fxp', 16, 8], ['fxp', 32, 16]),
+                         ((6, 2), ['int', 8], ['fld', 65521, True])):
+        lo, hi = common_range(S, T)
+        vals = sorted({lo, lo + 1, -20, -3, -1, 0, 1, 2, 7, 19, hi - 1, hi} & set(range(lo, hi + 1)))
+        yield dict(mode='gen', m=m, t=t, prss=True, seed=m * 10 + t, src=S, tgt=T, sender=1, scalar=False, vals=vals)
+
+
 # ------------------------------------------------------------------ generated cases
 def _pool(kind, tier):
     if kind == 'int':
